@@ -3,7 +3,8 @@ captures the frames a peer would receive (C13: header.version).
 
     python defs_client_worker.py < cases.json > results.json      (PYTHONPATH=/repo/src)
 
-case: {"files": {rel: text}, "root": rel, "messages": [name...], "signals": [name...], "undefined_ids": [int...]}
+case: {"revs": [{"files":.., "root":.., "messages": [...], "signals": [...]}, ...], "order": [rev index...]}   (see run_revisions)
+   or {"files": {rel: text}, "root": rel, "messages": [name...], "signals": [name...], "undefined_ids": [int...]}
 result: {"ok": bool, "err": str, "frames": [{"path": "send_message"|"send_signal"|"forward_message",
           "name":..., "type_hash": int, "parser_hash": str, "version": int, "msg_type": int, "nbytes": int}]}
 
@@ -117,12 +118,84 @@ def run_case(k: int, case: dict) -> dict:
         shutil.rmtree(d, ignore_errors=True)
 
 
+def run_revisions(k: int, case: dict) -> dict:
+    """Several revisions of a definition file, each compiled to its own python module, all imported into
+    THIS process in the given order (the id -> class registry keeps the last import).  An instance of every
+    listed message of every revision is sent; every listed signal is sent through send_signal with the MT_
+    constant of its own module and through send_message."""
+    from pyrtma.parser import Parser
+    from pyrtma.compilers.python import PyDefCompiler
+    from pyrtma.client import Client
+    d = Path(tempfile.mkdtemp(prefix="vcli_"))
+    cwd = os.getcwd()
+    res = dict(ok=False, err="", frames=[])
+    try:
+        built = {}
+        for j, rev in enumerate(case["revs"]):
+            rd = d / f"rev{j}"
+            for rel, text in rev["files"].items():
+                p = rd / rel
+                p.parent.mkdir(parents=True, exist_ok=True)
+                p.write_text(text)
+            parser = Parser(import_coredefs=True)
+            for h in list(parser.logger.handlers):
+                parser.logger.removeHandler(h)
+            parser.logger.addHandler(logging.NullHandler())
+            with contextlib.redirect_stdout(io.StringIO()), contextlib.redirect_stderr(io.StringIO()):
+                parser.parse(rd / rev["root"])
+                out = d / f"vrev_{k}_{j}.py"
+                PyDefCompiler(parser).generate(out)
+            built[j] = (parser, out)
+        mods = {}
+        for j in case["order"]:
+            name = f"vrev_{k}_{j}"
+            spec = importlib.util.spec_from_file_location(name, built[j][1])
+            mod = importlib.util.module_from_spec(spec)
+            sys.modules[name] = mod
+            spec.loader.exec_module(mod)
+            mods[j] = mod
+        a, b = socket.socketpair()
+        c = Client(module_id=11)
+        c._sock = a
+        c._connected = True
+
+        def grab(path, j, nm, thash):
+            f = HDR.unpack(recv_exact(b, HDR.size))
+            if f[8] > 0:
+                recv_exact(b, f[8])
+            res["frames"].append(dict(path=path, rev=j, name=nm, type_hash=thash,
+                                      parser_hash=built[j][0].message_defs[nm].hash, version=f[11], msg_type=f[0],
+                                      nbytes=f[8], import_order=case["order"]))
+        with contextlib.redirect_stdout(io.StringIO()):
+            for j in sorted(mods):
+                for nm in case["revs"][j].get("messages", []):
+                    cls = getattr(mods[j], "MDF_" + nm)
+                    c.send_message(cls())
+                    grab("send_message", j, nm, cls.type_hash)
+                for nm in case["revs"][j].get("signals", []):
+                    cls = getattr(mods[j], "MDF_" + nm)
+                    c.send_message(cls())
+                    grab("send_message", j, nm, cls.type_hash)
+                    c.send_signal(getattr(mods[j], "MT_" + nm))
+                    grab("send_signal", j, nm, cls.type_hash)
+        a.close()
+        b.close()
+        res["ok"] = True
+        return res
+    except BaseException as e:  # noqa
+        res["err"] = f"{type(e).__name__}: {e}\n" + traceback.format_exc()[-600:]
+        return res
+    finally:
+        os.chdir(cwd)
+        shutil.rmtree(d, ignore_errors=True)
+
+
 def main():
     cases = json.load(sys.stdin)
     real = os.fdopen(os.dup(1), "w")     # keep the result channel; children (black) inherit fd 1 = stderr
     os.dup2(2, 1)
     sys.stdout = sys.stderr
-    out = [run_case(k, c) for k, c in enumerate(cases)]
+    out = [(run_revisions(k, c) if "revs" in c else run_case(k, c)) for k, c in enumerate(cases)]
     json.dump(out, real)
     real.flush()
 
